@@ -914,6 +914,8 @@ func main() {
 					continue
 				}
 				packCase(&sp)
+			case "D":
+				docCase([]byte(common.UnHex(c["hex"])))
 			case "S":
 				digestCase(common.UnHex(c["hex"]))
 			case "A":
@@ -957,9 +959,9 @@ func floors() {
 	want := map[string]int{"result_ok": 500, "result_storage-error": 100, "result_invalid-datetime": 50, "result_invalid-media-type": 50,
 		"result_unsupported": 20, "result_missing-artifact-type": 20, "target_memory": 50, "target_oci": 50, "target_file": 50,
 		"target_registry": 50, "target_oci+exists": 50, "target_file+exists": 50, "target_registry+exists": 50, "copy_checked": 300,
-		"determinism_checked": 300, "history_second_call": 300, "history_chained_call": 150, "idempotence_checked": 200, "registry_validating": 50, "file_named_blob": 50, "file_titled_config": 30, "file_titled_manifest": 10, "file_duplicate_name": 20, "enumerated_file_titles": 200, "prefilled": 300, "non_utf8_input": 50, "sha512_descriptor": 50, "config_empty_media_type": 10,
+		"determinism_checked": 300, "history_second_call": 300, "history_chained_call": 150, "history_order_checked": 30, "idempotence_checked": 200, "registry_validating": 50, "file_named_blob": 50, "file_titled_config": 30, "file_titled_manifest": 10, "file_duplicate_name": 20, "enumerated_file_titles": 200, "prefilled": 300, "non_utf8_input": 50, "sha512_descriptor": 50, "config_empty_media_type": 10,
 		"enumerated": 1000, "enumerated_faults": 1000, "time_accepted": 1000, "parse_accepted": 1000, "parse_rejected": 1000, "time_rejected": 1000, "mediatype_valid": 1000,
-		"mediatype_invalid": 1000, "utf8_coerced": 500, "json_string": 1000, "format_valid": 1000, "sha256": 150, "ann_object": 1000, "format_invalid": 20, "base64": 1000, "utf8_unchanged": 100}
+		"mediatype_invalid": 1000, "utf8_coerced": 500, "json_string": 1000, "format_valid": 1000, "sha256": 150, "ann_object": 1000, "document_head": 200, "format_invalid": 20, "base64": 1000, "utf8_unchanged": 100}
 	var low []string
 	for k, n := range want {
 		if run.Dist[k] < n {
